@@ -90,7 +90,7 @@ func VerifC01Apply() {
 	rt.Assume(hdr.NodeID != w.store.ID())
 	preOK, minOK := true, true
 	if snapshot {
-		hdr.MinTXID, hdr.MaxTXID = 1, ltx.TXID([]uint64{42, 7}[rt.Choose("snap.max", 2)])
+		hdr.MinTXID, hdr.MaxTXID = 1, ltx.TXID([]uint64{42, 7, 41}[rt.Choose("snap.max", 3)]) // ahead, behind, or the very TXID this node is at (other history)
 	} else {
 		hdr.MinTXID = ltx.TXID([]uint64{42, 43, 41}[rt.Choose("min.txid", 3)])
 		hdr.MaxTXID = hdr.MinTXID
